@@ -22,6 +22,7 @@ import (
 	"fmt"
 	"strconv"
 	"strings"
+	"time"
 
 	x "bfeverif/harness/internal/c4xtls"
 	"bfeverif/harness/internal/vh"
@@ -323,6 +324,11 @@ func exec(op string) string {
 		return execTk(f)
 	case "res":
 		return execRes(f)
+	case "rv":
+		return execRv(f)
+	case "sc":
+		x.ServerCerts() // key generation outside the watchdog
+		return vh.SafeTimeout(120*time.Second, func() string { return execSc(f) })
 	case "mkres":
 		return mkRes(f)
 	}
@@ -709,6 +715,12 @@ func genRes(r *vh.Rand) string {
 }
 
 func gen(r *vh.Rand) string {
+	switch r.Intn(40) {
+	case 0, 1:
+		return genRv(r)
+	case 2:
+		return genSc(r)
+	}
 	switch r.Intn(10) {
 	case 0:
 		return genUm(r)
